@@ -130,6 +130,8 @@ def make_iter(ex, v, by_ref):
         return IterObj("seq", seq=v, pos=0, by_ref=by_ref, mut=False)
     if isinstance(v, MapObj):
         return IterObj("map", m=v, visited=(), by_ref=by_ref)
+    if isinstance(v, Adt) and v.ty == "Range":
+        return IterObj("range", lo=v.fields[0], hi=v.fields[1], pos=0)
     if isinstance(v, Adt) and v.ty == "Option":
         return IterObj("seq", seq=new_seq(ex, [v.fields[0]] if v.variant == "Some" else []), pos=0, by_ref=by_ref, mut=False)
     raise NoModel()
@@ -165,6 +167,23 @@ def iter_next(ex, it):
                 tset(it, "pos", pos + 1)
                 c = ex.seq_item(seq, pos)
                 yield Some(Ref(c) if it.by_ref else c.v)
+            else:
+                yield NONE
+        return
+    if k == "range":
+        cap = getattr(ex, "range_max", getattr(ex, "from_elem_max", ex.seq_max))
+        cur = zint(it.lo) + it.pos
+        more = cur < zint(it.hi)
+        for b in ex.branches([more, z3.Not(more)]):
+            if b == 0:
+                if it.pos >= cap:
+                    hook = getattr(ex, "from_elem_overflow", None)
+                    if hook:
+                        hook(ex, it.hi)
+                        continue
+                    raise Unsupported("range longer than the modelled capacity %d" % cap)
+                tset(it, "pos", it.pos + 1)
+                yield Some(z3.simplify(cur))
             else:
                 yield NONE
         return
@@ -547,6 +566,86 @@ def install(ex):
         else:
             yield z3.If(a == -2**31, a, z3.If(a < 0, -a, a))
 
+    @model(r"^core::num::<impl i32>::(div_euclid|rem_euclid)$", "i32::div_euclid / rem_euclid (fresh q, r with 0 <= r < |b|; b = 0 and MIN/-1 panic)")
+    def i32_euclid(ex, callee, args, rt):
+        a, b = args
+        bad = z3.Or(b == 0, z3.And(a == -2**31, b == -1))
+        for i in ex.branches([bad, z3.Not(bad)]):
+            if i == 0:
+                ex.panic("attempt to divide by zero / with overflow (euclid)", callee)
+            else:
+                q = z3.Int(ex.fresh_name("qe"))
+                r = z3.Int(ex.fresh_name("re"))
+                ex.ctx.add_global(z3.Implies(b != 0, z3.And(a == b * q + r, r >= 0, r < z3.If(b < 0, -b, b))))
+                yield q if callee.endswith("div_euclid") else r
+
+    @model(r"^core::num::<impl i32>::(signum|is_negative|is_positive|unsigned_abs|wrapping_abs|wrapping_neg|wrapping_add|wrapping_sub|wrapping_mul)$", "i32 helpers")
+    def i32_misc(ex, callee, args, rt):
+        op = callee.rsplit("::", 1)[1]
+        a = args[0]
+        lo, hi = INT_RANGES["i32"]
+        if op == "signum":
+            yield z3.If(a > 0, z3.IntVal(1), z3.If(a < 0, z3.IntVal(-1), z3.IntVal(0)))
+        elif op == "is_negative":
+            yield a < 0
+        elif op == "is_positive":
+            yield a > 0
+        elif op == "unsigned_abs":
+            yield z3.If(a < 0, -a, a)
+        elif op == "wrapping_abs":
+            yield wrap(z3.If(a < 0, -a, a), lo, hi)
+        elif op == "wrapping_neg":
+            yield wrap(-a, lo, hi)
+        else:
+            b = args[1]
+            yield wrap({"wrapping_add": a + b, "wrapping_sub": a - b, "wrapping_mul": a * b}[op], lo, hi)
+
+    @model(r"^core::num::<impl i32>::checked_(add|sub|mul|neg|abs|div|rem)$", "i32::checked_*")
+    def i32_checked(ex, callee, args, rt):
+        op = callee.rsplit("_", 1)[1]
+        a = args[0]
+        lo, hi = INT_RANGES["i32"]
+        if op in ("div", "rem"):
+            b = args[1]
+            bad = z3.Or(b == 0, z3.And(a == lo, b == -1))
+            for i in ex.branches([bad, z3.Not(bad)]):
+                if i == 0:
+                    yield NONE
+                else:
+                    q, r = ex.divrem(a, b)
+                    yield Some(q if op == "div" else r)
+            return
+        if op == "neg":
+            r = -a
+        elif op == "abs":
+            r = z3.If(a < 0, -a, a)
+        else:
+            b = args[1]
+            r = {"add": a + b, "sub": a - b, "mul": a * b}[op]
+        ovf = z3.Or(r < lo, r > hi)
+        for i in ex.branches([ovf, z3.Not(ovf)]):
+            yield NONE if i == 0 else Some(r)
+
+    @model(r"^<(i32|u32|usize|i64) as Ord>::(min|max)$|^std::cmp::(min|max)$|^core::cmp::(min|max)$", "min/max on integers")
+    def int_minmax(ex, callee, args, rt):
+        a, b = ex.deref(args[0]), ex.deref(args[1])
+        if not (is_z3(a) and z3.is_int(a)):
+            raise NoModel()
+        yield z3.If(a <= b, a, b) if strip_turbofish(callee).endswith("min") else z3.If(a >= b, a, b)
+
+    @model(r"^<\(.*\) as PartialEq>::(eq|ne)$", "tuple equality, componentwise over scalars")
+    def tuple_eq(ex, callee, args, rt):
+        a, b = ex.deref(args[0]), ex.deref(args[1])
+        if not (isinstance(a, Tup) and isinstance(b, Tup)):
+            raise NoModel()
+        parts = []
+        for x, y in zip(a.items, b.items):
+            if not (is_z3(x) and is_z3(y)):
+                raise Unsupported("tuple equality over non-scalars")
+            parts.append(x == y)
+        e = z3.And(*parts) if parts else z3.BoolVal(True)
+        yield e if callee.endswith("eq") else z3.Not(e)
+
     @model(r"^<&?(i32|u32|usize|i64|u64) as (Add|Sub|Mul)(<&?\\w+>)?>::(add|sub|mul)$", "std forwarding impls of + - * on (&)integers: overflow = panic with overflow checks (rustc_inherit_overflow_checks), wrap without")
     def ref_arith(ex, callee, args, rt):
         a = ex.deref(args[0])
@@ -806,6 +905,10 @@ def install(ex):
         for r in ex.call_closure(f, [g]):
             yield r
 
+    @model(r"^<.+ as Drop>::drop$|^std::mem::drop$|^core::mem::drop$|^drop$", "explicit drops: no effect (drops are not modelled; the crate defines no Drop impl)")
+    def drop_(ex, callee, args, rt):
+        yield UNIT
+
     @model(r"^std::mem::(take|replace|swap)$|^core::mem::(take|replace|swap)$", "mem::take/replace/swap")
     def mem_ops(ex, callee, args, rt):
         op = callee.rsplit("::", 1)[1] if "::<" not in callee else strip_turbofish(callee).rsplit("::", 1)[1]
@@ -951,14 +1054,31 @@ def install(ex):
         x, n = args
         nc = conc_int(n)
         cap = getattr(ex, "from_elem_max", ex.seq_max)
+        m = re.search(r"from_elem::<(.*)>$", callee.strip())
+        elem_ty = m.group(1) if m else None
+
+        def build(count):
+            """std's from_elem: count-1 clones followed by the value itself"""
+            def rec(acc):
+                if len(acc) >= count - 1 or count == 0:
+                    yield list(acc) + ([x] if count > 0 else [])
+                    return
+                if elem_ty is None:
+                    yield from rec(acc + [x])
+                    return
+                for c in ex.call("<%s as Clone>::clone" % elem_ty, [Ref(Cell(x))], elem_ty, 1):
+                    yield from rec(acc + [c])
+            yield from rec([])
+
         if nc is not None:
-            yield new_seq(ex, [x] * nc)
+            for items in build(nc):
+                yield new_seq(ex, items)
             return
         conds = [n == k for k in range(cap + 1)] + [n > cap]
         for i in ex.branches(conds):
             if i <= cap:
-                s = new_seq(ex, [x] * i, maxlen=cap)
-                yield s
+                for items in build(i):
+                    yield new_seq(ex, items, maxlen=cap)
             else:
                 hook = getattr(ex, "from_elem_overflow", None)
                 if hook:
